@@ -1635,6 +1635,11 @@ fn gen_e2e_case_x(rng: &mut Rng, id: String, tier: &str, with_eburst: bool) -> C
 fn oracle_case_from(mut c: Case) -> Case {
     let mut ops = vec![];
     for op in c.ops.drain(..) {
+        // hand-made frames (recv) are the correspondence stream's business; some leave an incomplete
+        // reassembly behind on purpose
+        if op.starts_with("recv") {
+            continue;
+        }
         let stale = op.contains("sched=drop") || op.contains("sched=dup");
         ops.push(op);
         if stale {
